@@ -2,11 +2,18 @@
     tokenizer error (no out-of-bounds access - the model makes every index explicit -, and every loop consumes input:
     the fuel "length of the input + 1" is never exhausted); the token lines it produces never decrease and start at 1
     (the parser's u32 line differences cannot underflow within a file); the string-end and comment-end searches are
-    total functions of the remaining input.  The parser proper is tied by the correspondence run on malformed inputs
-    (the model reports the panic sites explicitly) and evaluated by the totality oracle; recursion depth is a runtime
-    resource (known finding: unbounded recursion). *)
+    total functions of the remaining input.
+    The parser (Proofs/TerminationProofs.v): the loops and recursive functions of parser.rs / ifdata.rs carry no bound in
+    the Rust code; the model gives each loop the number of remaining tokens (+1 or +2) as fuel and each recursion the
+    number of tokens of the file + 2 as depth.  For every token list that the include expansion can produce, in both
+    modes, with any A2ML definitions and any nesting, parse_file never uses that fuel up - each turn of a loop that goes
+    on has consumed a token, each level of recursion too - so the model's answer is the answer of the unbounded
+    recursion and every loop of the parser ends.  Panics of the parser are tied by the correspondence run on malformed
+    inputs (the model reports the panic sites explicitly) and evaluated by the totality oracle; the stack depth of the
+    recursion is a runtime resource (known finding: unbounded recursion). *)
 From Coq Require Import Ascii String List Bool NArith ZArith.
-From A2L Require Import Base.Res Text.Escape Lex.Tokenizer Proofs.TokenizerProofs Proofs.LayoutProofs.
+From A2L Require Import Base.Res Text.Escape Lex.Tokenizer Lex.Include Gram.Spec Gram.PState Gram.Parser Gen.SpecShipped
+  Proofs.TokenizerProofs Proofs.LayoutProofs Proofs.CursorProofs Proofs.ParseTraceProofs Proofs.TerminationProofs.
 Import ListNotations.
 Local Open Scope N_scope.
 
@@ -39,3 +46,51 @@ Example C03_former_crash_inputs :
   (exists r, tokenize_core 0 (list_ascii_of_string "/begin A2ML") = TOk r) /\
   (exists r, tokenize_core 0 (list_ascii_of_string "/begin A2ML /* x") = TOk r).
 Proof. repeat split; vm_compute; eexists; reflexivity. Qed.
+
+(* ---------- the parser ---------- *)
+Lemma C03_shipped_grammar_is_covered : spec_ok spec_shipped = true.
+Proof. vm_compute. reflexivity. Qed.
+Lemma C03_shipped_version_element_is_plain : forall td, lookup_ty spec_shipped "Asap2Version" = Some td -> plain td = true.
+Proof. intros td H. vm_compute in H. injection H as <-. vm_compute. reflexivity. Qed.
+
+(* whatever the include expansion hands to the parser contains no Include token *)
+Theorem C03_expanded_token_list_has_no_include_token : forall fs fuel f fileid text toks files,
+  tokenize_inc fs fuel f fileid text = IOk toks files -> Forall (fun t => tk_type t <> TInclude) toks.
+Proof. exact tokenize_inc_no_include. Qed.
+Print Assumptions C03_expanded_token_list_has_no_include_token.
+
+(* every loop and every recursion of the parser ends: the fuel of the model is never used up *)
+Theorem C03_parser_always_terminates : forall toks strict nfiles ftab specs oracle,
+  Forall (fun t => tk_type t <> TInclude) toks ->
+  fst (parse_file spec_shipped (init_state_a2ml toks strict nfiles ftab specs oracle)) <> RFuel.
+Proof.
+  intros toks strict nfiles ftab specs oracle H.
+  apply (parse_file_no_fuel spec_shipped C03_shipped_grammar_is_covered C03_shipped_version_element_is_plain); [|reflexivity].
+  constructor; [reflexivity | exact H].
+Qed.
+Print Assumptions C03_parser_always_terminates.
+
+(* the same for every grammar that meets the (executable) grammar condition, from any start state at position 0 *)
+Theorem C03_parser_always_terminates_for_any_grammar : forall G s0,
+  spec_ok G = true -> (forall td, lookup_ty G "Asap2Version" = Some td -> plain td = true) ->
+  W s0 -> ps_pos s0 = O -> fst (parse_file G s0) <> RFuel.
+Proof. intros G s0 H1 H2. exact (parse_file_no_fuel G H1 H2 s0). Qed.
+Print Assumptions C03_parser_always_terminates_for_any_grammar.
+
+(* uninterpreted IF_DATA of any nesting depth, typed IF_DATA under any definition: no loop without progress *)
+Theorem C03_uninterpreted_ifdata_terminates : forall fuel c B lo p, (lo <= p)%nat -> (B + 2 <= fuel + p)%nat ->
+  tm B lo p (fun _ => p) (unknown_ifdata fuel c true).
+Proof. exact tm_unknown_ifdata. Qed.
+Theorem C03_typed_ifdata_terminates : forall f ty c B lo p, (ty_depth ty <= f)%nat -> (lo <= p)%nat ->
+  tm B lo p (fun _ => p) (parse_ifdata_item f ty c).
+Proof. exact tm_parse_ifdata_item. Qed.
+Print Assumptions C03_uninterpreted_ifdata_terminates.
+Print Assumptions C03_typed_ifdata_terminates.
+
+(* the premises are met: a token list with comments, an unknown block, IF_DATA and a number that is no i32 *)
+Example C03_termination_example :
+  exists toks, tokenize_core 0 (list_ascii_of_string
+      "ASAP2_VERSION 1 71 /* c */ /begin PROJECT p """" /begin MODULE m """" /begin FOO 1 /begin BAR /end BAR /end FOO /begin IF_DATA X 1 2.5 0x1FFFFFFFF /begin Y a /end Y /end IF_DATA /end MODULE /end PROJECT") = TOk toks /\
+    forallb (fun t => negb (ttype_eqb (tk_type t) TInclude)) toks = true /\
+    Nat.leb 20 (length toks) = true.
+Proof. eexists. split; [vm_compute; reflexivity|]. split; vm_compute; reflexivity. Qed.
